@@ -426,3 +426,105 @@ def is_call_to(n, *names):
 
 def dump(e):
     return ast.dump(e, annotate_fields=False)
+
+
+# ------------------------------------------------------------------------------------------------ helper-method flattening
+def flatten_self_calls(fnode, methods, keep=(), depth=2):
+    """A copy of the FunctionDef `fnode` in which every top-level statement `T = self.m(..)`, `return self.m(..)` or `self.m(..)` whose callee `m` is a method in
+    `methods` (name -> FunctionDef) with a straight-line body (no return except the last statement, no loops) is replaced by the callee's body: parameters
+    bound to the arguments, every local of the callee prefixed with `m$`, the final return turned into the assignment / return of the call site.  Methods
+    named in `keep` stay calls.  Refactorings that split a function into helpers leave the flattened body the rules read unchanged."""
+    import copy
+
+    def simple(m):
+        body = [s for s in m.body if not (isinstance(s, ast.Expr) and isinstance(s.value, ast.Constant))]
+        if not body or not isinstance(body[-1], ast.Return) or body[-1].value is None:
+            return None
+        for s in body[:-1]:
+            for n in ast.walk(s):
+                if isinstance(n, (ast.Return, ast.For, ast.While, ast.Try, ast.With, ast.FunctionDef, ast.Lambda, ast.Yield, ast.YieldFrom)):
+                    return None
+        return body
+
+    def callee_of(call):
+        if isinstance(call, ast.Call) and isinstance(call.func, ast.Attribute) and isinstance(call.func.value, ast.Name) and call.func.value.id in ('self', 'cls') \
+                and call.func.attr in methods and call.func.attr not in keep and not any(isinstance(a, ast.Starred) for a in call.args) \
+                and not any(k.arg is None for k in call.keywords):
+            return methods[call.func.attr]
+        return None
+
+    def expand(st, level):
+        call = st.value if isinstance(st, (ast.Assign, ast.Return, ast.Expr)) else None
+        m = callee_of(call)
+        if m is None or level <= 0:
+            return [st]
+        body = simple(m)
+        if body is None:
+            return [st]
+        a = m.args
+        names = [x.arg for x in a.posonlyargs + a.args]
+        if names and names[0] in ('self', 'cls'):
+            names = names[1:]
+        if a.vararg or a.kwarg or a.kwonlyargs:
+            return [st]
+        defaults = dict(zip(reversed(names), reversed(a.defaults)))
+        bound = {}
+        for n_, v in zip(names, call.args):
+            bound[n_] = v
+        for k in call.keywords:
+            if k.arg not in names or k.arg in bound:
+                return [st]
+            bound[k.arg] = k.value
+        for n_ in names:
+            if n_ not in bound:
+                if n_ not in defaults:
+                    return [st]
+                bound[n_] = defaults[n_]
+        prefix = m.name + '$'
+        locals_ = set(names)
+        for s in body:
+            for n in ast.walk(s):
+                if isinstance(n, ast.Name) and isinstance(n.ctx, (ast.Store, ast.Del)):
+                    locals_.add(n.id)
+
+        class Ren(ast.NodeTransformer):
+            def visit_Name(self, n):
+                if n.id in locals_:
+                    return ast.copy_location(ast.Name(prefix + n.id, n.ctx), n)
+                return n
+        out = []
+        for n_ in names:
+            out.append(ast.copy_location(ast.Assign([ast.Name(prefix + n_, ast.Store())], copy.deepcopy(bound[n_])), st))
+        for s in body[:-1]:
+            out.append(Ren().visit(copy.deepcopy(s)))
+        ret = Ren().visit(copy.deepcopy(body[-1].value))
+        if isinstance(st, ast.Assign):
+            out.append(ast.copy_location(ast.Assign(copy.deepcopy(st.targets), ret), st))
+        elif isinstance(st, ast.Return):
+            out.append(ast.copy_location(ast.Return(ret), st))
+        else:
+            out.append(ast.copy_location(ast.Expr(ret), st))
+        res = []
+        for s in out:
+            res += expand(s, level - 1)
+        return res
+
+    new = copy.deepcopy(fnode)
+    body = []
+    changed = False
+    for st in new.body:
+        ex = expand(st, depth)
+        if len(ex) != 1 or ex[0] is not st:
+            changed = True
+        body += ex
+    if not changed:
+        return fnode
+    new.body = body
+    ast.fix_missing_locations(new)
+    # keep line numbers increasing in statement order: the path / inlining engines order events by position
+    for i, s in enumerate(new.body):
+        for n in ast.walk(s):
+            if hasattr(n, 'lineno'):
+                n.lineno = fnode.lineno + 1 + i
+                n.end_lineno = n.lineno
+    return new
